@@ -4,8 +4,11 @@
     delete an element | duplicate an element | empty a text node | delete an attribute | empty an attribute | set an attribute to a foreign
     (non-ASCII) text | retarget an href to a missing id, to its own element, or make its target require it back (cyclic requirements)
 
-applied at every position of the example models shipped with the repository (examples/src/**/*.dmn), plus the unmodified models:
-parse + build the evaluator + evaluate every invocable with an empty context on the real code (replay driver, catch_unwind).
+applied at every position of the example models shipped with the repository (examples/src/**/*.dmn), plus the unmodified models, plus
+28 generated models with requirement cycles of length 1..3 through every kind of edge (decision, knowledge model, the output /
+encapsulated / input decisions of a decision service) and with type reference cycles (exact and with white space around the names):
+parse + build the evaluator + evaluate every invocable with an empty context and with four contexts binding every input data on the
+real code (replay driver, catch_unwind).
 A PANIC line or a crash of the driver process (stack overflow, abort) is a failure.
 The recursive example model N_0088 is excluded: a recorded known finding (stack overflow).
 
@@ -123,6 +126,56 @@ def first_href_inside(els, ident):
     return None
 
 
+def generated_models():
+    """models written here (not faults of examples): requirement cycles of length 1..3 through every kind of edge, and type reference cycles"""
+    head = '<?xml version="1.0" encoding="UTF-8"?>\n<definitions namespace="https://verif/cyc" name="cyc" id="_d" xmlns="https://www.omg.org/spec/DMN/20191111/MODEL/">\n'
+    tail = '</definitions>\n'
+
+    def decision(n, req_dec=(), req_know=(), req_in=(), text='1'):
+        r = ''.join('<informationRequirement id="_ir_%s_%s"><requiredDecision href="#_%s"/></informationRequirement>' % (n, x, x) for x in req_dec)
+        r += ''.join('<informationRequirement id="_ii_%s_%s"><requiredInput href="#_%s"/></informationRequirement>' % (n, x, x) for x in req_in)
+        r += ''.join('<knowledgeRequirement id="_kr_%s_%s"><requiredKnowledge href="#_%s"/></knowledgeRequirement>' % (n, x, x) for x in req_know)
+        return '  <decision name="%s" id="_%s"><variable name="%s"/>%s<literalExpression><text>%s</text></literalExpression></decision>\n' % (n, n, n, r, text)
+
+    def bkm(n, req_know=()):
+        r = ''.join('<knowledgeRequirement id="_kr_%s_%s"><requiredKnowledge href="#_%s"/></knowledgeRequirement>' % (n, x, x) for x in req_know)
+        return '  <businessKnowledgeModel name="%s" id="_%s"><variable name="%s"/><encapsulatedLogic><literalExpression><text>1</text></literalExpression></encapsulatedLogic>%s</businessKnowledgeModel>\n' % (n, n, n, r)
+
+    def service(n, out=(), enc=(), ind=()):
+        return ('  <decisionService name="%s" id="_%s"><variable name="%s"/>%s%s%s</decisionService>\n'
+                % (n, n, n, ''.join('<outputDecision href="#_%s"/>' % x for x in out), ''.join('<encapsulatedDecision href="#_%s"/>' % x for x in enc), ''.join('<inputDecision href="#_%s"/>' % x for x in ind)))
+
+    def itemdef(n, tref, ws=''):
+        return '  <itemDefinition name="%s"><typeRef>%s%s%s</typeRef></itemDefinition>\n' % (n, ws, tref, ws)
+
+    def indata(n, tref):
+        return '  <inputData name="%s" id="_%s"><variable name="%s" typeRef="%s"/></inputData>\n' % (n, n, n, tref)
+    m = []
+    m.append(('decision requires itself', decision('A', req_dec=['A'])))
+    m.append(('two decisions require each other', decision('A', req_dec=['B']) + decision('B', req_dec=['A'])))
+    m.append(('three decisions in a ring', decision('A', req_dec=['B']) + decision('B', req_dec=['C']) + decision('C', req_dec=['A'])))
+    m.append(('a ring behind an acyclic entry decision', decision('E', req_dec=['A']) + decision('A', req_dec=['B']) + decision('B', req_dec=['A'])))
+    m.append(('knowledge model requires itself', bkm('K', ['K']) + decision('A', req_know=['K'], text='K()')))
+    m.append(('two knowledge models require each other', bkm('K', ['L']) + bkm('L', ['K']) + decision('A', req_know=['K'], text='K()')))
+    for (what, kw) in (('output decision', {'out': ['D']}), ('encapsulated decision', {'out': ['O'], 'enc': ['D']}), ('input decision', {'out': ['O'], 'ind': ['D']})):
+        body = service('S', **kw) + decision('D', req_know=['S'], text='1')
+        if 'O' in kw.get('out', []):
+            body += decision('O', text='1')   # the output decision does not require D: the service alone reaches it
+        m.append(('decision service whose %s requires the service' % what, body))
+        body2 = service('S', **kw) + decision('D', req_know=['K'], text='1') + bkm('K', ['S'])
+        if 'O' in kw.get('out', []):
+            body2 += decision('O', text='1')
+        m.append(('decision service -> %s -> knowledge model -> the service' % what, body2))
+    for ws in ('', ' ', '\n      '):
+        shown = {'': 'exact', ' ': 'blanks around', '\n      ': 'pretty-printed'}[ws]
+        m.append(('item definition whose type reference names itself (%s)' % shown, itemdef('tA', 'tA', ws) + indata('I', 'tA') + decision('A', req_in=['I'], text='I')))
+        m.append(('two item definitions referring to each other (%s)' % shown, itemdef('tA', 'tB', ws) + itemdef('tB', 'tA', ws) + indata('I', 'tA') + decision('A', req_in=['I'], text='I')))
+        m.append(('three item definitions in a ring (%s)' % shown, itemdef('tA', 'tB', ws) + itemdef('tB', 'tC', ws) + itemdef('tC', 'tA', ws) + indata('I', 'tB') + decision('A', req_in=['I'], text='I')))
+    m.append(('item definition containing itself through a component', '  <itemDefinition name="tA"><itemComponent name="next"><typeRef>tA</typeRef></itemComponent></itemDefinition>\n' + indata('I', 'tA') + decision('A', req_in=['I'], text='I')))
+    m.append(('item definition containing itself through a collection component', '  <itemDefinition name="tA"><itemComponent name="kids" isCollection="true"><typeRef>tA</typeRef></itemComponent></itemDefinition>\n' + indata('I', 'tA') + decision('A', req_in=['I'], text='I')))
+    return [(what, head + body + tail) for (what, body) in m]
+
+
 def main():
     nmodels = None
     seed = 0
@@ -173,6 +226,13 @@ def main():
         plan = []
         listing = []
         k = 0
+        for (what, text) in generated_models():
+            p = os.path.join(work, 'm%06d.xml' % k)
+            with open(p, 'w', encoding='utf-8') as fh:
+                fh.write(text)
+            plan.append((p, 'generated model', what))
+            listing.append(p)
+            k += 1
         for f in files:
             xml = open(f, encoding='utf-8').read()
             cases = [('unmodified', xml)] + faults(xml)
